@@ -217,6 +217,17 @@ RECURSIVE Spaces(_), Carets(_)
 Spaces(n) == IF n <= 0 THEN "" ELSE " " \o Spaces(n - 1)
 Carets(n) == IF n <= 0 THEN "" ELSE "^" \o Carets(n - 1)
 Mark(b, e) == Spaces(Len(Prefix) + b) \o Carets(IF e - b < 1 THEN 1 ELSE e - b)
+\* the general rule, for a node with span (bl, bc)..(el, ec) (0-based columns) whose first line has `linelen` characters:
+\* the FIRST line is quoted; a node on one line is marked over [bc, ec), a node that continues on later lines from bc
+\* to the end of the quoted line; at least one caret
+MarkRange(bl, bc, el, ec, linelen) ==
+  LET hi == IF bl = el THEN ec ELSE linelen IN <<bc, IF hi - bc < 1 THEN bc + 1 ELSE hi>>
+\* the mark never leaves the quoted line when the span lies inside the text, and always shows at least one caret
+MarkInsideLine == \A bc \in 0..6, ec \in 0..6, linelen \in 1..6, same \in BOOLEAN :
+   LET r == MarkRange(0, bc, IF same THEN 0 ELSE 1, ec, linelen) IN
+   r[2] > r[1] /\ ((bc < linelen /\ (~same \/ (bc <= ec /\ ec <= linelen))) => r[2] <= linelen)
+EmitMarkTable == \A bc \in 0..6, ec \in 0..6, linelen \in 1..6, same \in BOOLEAN :
+   PrintT("MARK " \o ToJson([bc |-> bc, ec |-> ec, linelen |-> linelen, same |-> same, range |-> MarkRange(0, bc, IF same THEN 0 ELSE 1, ec, linelen)]))
 RECURSIVE Annot(_)
 Annot(n) ==
   LET m == [n EXCEPT !.s = n.s] @@ [q |-> Mark(n.b, n.e)] IN
